@@ -308,6 +308,34 @@ def end_of_episode(w, hist):
                     tc["Broker fees"].iloc[-1], tc["Profit on idle Cash"].iloc[-1], fee, intr), ""))
         else:
             fails.append(("frames", "transaction_costs failed: %r" % (tc,), ""))
+    # weight frames: one row per executed decision; the target row is the allocation that was executed (chain keys resolved to
+    # the contract traded), the actual rows are the weights of the account just before / after trading
+    if not fails and steps and len(tr) == len(steps):
+        o6, wt = impl.classify(lambda: tr.weights_target())
+        o7, wa = impl.classify(lambda: tr.weights_actual(before_rebalancing=False))
+        if o6 != "ok" or o7 != "ok" or len(wt) != len(steps) or len(wa) != len(steps):
+            fails.append(("frames", "TrackRecord.weights_target / weights_actual: %r / %r rows for %d executed decisions" % (
+                len(wt) if o6 == "ok" else wt, len(wa) if o7 == "ok" else wa, len(steps)), ""))
+        else:
+            for i, r in enumerate(steps):
+                ex = r["exec"] if isinstance(r["exec"], dict) else {}
+                if w.model.get("measure", "weight") != "weight" or w.model.get("relative"):
+                    break
+                for n, c in w.contracts.items():
+                    if c in wt.columns:
+                        g = float(wt.iloc[i][c])
+                        e = float(frac(ex[n])) if n in ex else 0.0
+                        if not (g != g and n not in ex) and abs((0.0 if g != g else g) - e) > 1e-6 * max(1.0, abs(e)):
+                            fails.append(("frames", "weights_target row %d, %s = %r, executed allocation %s" % (i, n, g, ex.get(n)), ""))
+                            break
+                post = tr[i].context_post
+                for n, c in w.contracts.items():
+                    if c in wa.columns:
+                        g = float(wa.iloc[i][c])
+                        e = float(post.weights.get(c, 0.0))
+                        if abs((0.0 if g != g else g) - e) > 1e-6 * max(1.0, abs(e)):
+                            fails.append(("frames", "weights_actual row %d, %s = %r, the entry's post-trade weight is %r" % (i, n, g, e), ""))
+                            break
     # compounding: no interest, no latency, simple returns
     if w.reward_kind == "simple" and w.cfg["lat"] == 0 and w.model["rate"] == 0 and w.model["markup"] == 0:
         oks = [r for r in hist if r["call"] == "step" and r["out"] == "ok"]
